@@ -4,7 +4,7 @@ import ast
 from fractions import Fraction
 
 from ..model import AnalysisError, src
-from ..paths import walk_no_defs
+from ..paths import walk_no_defs, atoms
 from ..absint import (Interp, Const, Sym, Err, Atom, Top, Func, ListV, Obj, Aff, AffCmp, Raised, Unmodelled, Exc, k)
 from .. import abshelp as H, ctx as ctxmod, purity, guards, sa
 from . import c01
@@ -71,7 +71,7 @@ def _r1(model, res):
                 res.ob('R1', name, 'for ... in %s' % src(node.iter)[:50], bad is None, bad)
                 if bad:
                     res.violation('R1', 'function:%s:for' % name, m.where(node.iter), '%s iterates an unbounded producer (%s)' % (name, bad), func=f.name)
-    res.floor('loops in integer/radix functions', n, 5)
+    res.soft_floor('loops in integer/radix functions', n, 5)
 
 
 def _is_error_return(model, m, f, ret, facts):
@@ -141,8 +141,18 @@ def _r2(model, res, singles):
                             rets.append((st, shim, r))
                         continue
                 rets.append((r, r, None))
+            # a conditional expression is two exits, each under its side of the test
+            split = []
             for at, r, also in rets:
-                facts = guards.facts_at(m, f, at, no_kill=(var,))
+                if isinstance(r.value, ast.IfExp):
+                    for branch, truth in ((r.value.body, True), (r.value.orelse, False)):
+                        shim = ast.Return(value=branch)
+                        ast.copy_location(shim, r)
+                        split.append((at, shim, also, [(a_, t_) for a_, t_ in atoms(r.value.test, truth)]))
+                else:
+                    split.append((at, r, also, []))
+            for at, r, also, extra in split:
+                facts = guards.facts_at(m, f, at, no_kill=(var,)) + extra
                 if also is not None:
                     # the path runs through the assignment and then reaches the return: the guards of both hold
                     facts = facts + guards.facts_at(m, f, also, no_kill=(var,))
@@ -425,6 +435,8 @@ def _r7(model, res, E):
     for o in outs:
         if o.imprecise or any(isinstance(s, Atom) and s.op == 'eq' and alt is True for (t, alt, s) in o.notes):
             continue
+        if o.kind == 'return' and o.value.tag == 'err':
+            continue        # the zero-divisor exit, however its test is spelled
         v = o.value
         ok = o.kind == 'return' and isinstance(v, Atom) and v.op in ('int', 'math.trunc') and isinstance(v.args[0], Atom) and v.args[0].op == 'truediv' and \
             [getattr(a, 'name', None) for a in v.args[0].args] == ['n', 'd']
@@ -451,6 +463,27 @@ def _r7(model, res, E):
         res.ob('R7', 'ROUND', {'result': repr(v)}, ok)
         if not ok:
             res.violation('R7', 'function:ROUND:round', m.where(f), 'ROUND must be round(number, digits); got %r' % (v,), func=f.name)
+    # multiples of a significance / of 10^-digits: the quotient is rounded with floor/ceil of the true quotient; float floor-division and
+    # modulo work on the exact binary values (1 // 0.1 is 9.0, not 10) and land one unit off whenever the number is already a multiple
+    for name in ('FLOOR', 'CEILING', 'ROUNDUP', 'ROUNDDOWN'):
+        if name not in model.registry:
+            continue
+        m, f = model.registered(name)
+        try:
+            outs = H.run_function(model, H.registry_func(model, name), lambda: [Sym('float', 'x'), Sym('float', 's')])
+        except Unmodelled as e:
+            res.ob('R7', name, 'rounding construction', True, 'undecided: %s' % e)
+            continue
+        for o in outs:
+            if o.imprecise or o.kind != 'return' or o.value.tag == 'err' or isinstance(o.value, Const):
+                continue
+            bad = [x for x in _ops(o.value) if x in ('floordiv', 'mod', 'math.fmod', 'math.remainder')]
+            res.ob('R7', name, {'result': repr(o.value)[:80]}, not bad)
+            if bad:
+                res.violation('R7', 'function:%s:float-floor-division' % name, m.where(f),
+                              '%s computes %r: floor-division / modulo of floats act on the exact binary values (1 // 0.1 is 9.0), so a number that '
+                              'is already a multiple of a decimal significance comes out one unit too low; the adjacent multiple must come from '
+                              'floor/ceil of the true quotient' % (name, o.value), func=f.name)
     # HEX2DEC: the text goes unchanged into int(., 16)
     m, f = model.registered('HEX2DEC')
     outs = H.run_function(model, H.registry_func(model, 'HEX2DEC'), lambda: [Sym('str', 'H')])
